@@ -27,7 +27,9 @@ for every input (no bound on loop iterations or data sizes), while `sat` is only
 
 Verdict per site: proved | candidate.  Candidates are never reported directly:
   - a candidate listed in lib/e2_baseline.json (keyed by crate, function, message and operand
-    text -- no line numbers) is a site this abstraction cannot decide on the unchanged tree
+    SHAPE -- no line numbers, no local numbers, no copy/move qualifiers -- with the NUMBER of such
+    sites on the unchanged tree; if a key occurs more often than that, all its sites count as new)
+    is a site this abstraction cannot decide on the unchanged tree
     (it needs a data-structure invariant); it is reported as "undecided", never as a violation;
   - a NEW candidate in a function that has a replay template is replayed through the `jaq` binary
     built from the overlay in the dev profile (the solver's values, then the type's boundary
@@ -90,7 +92,23 @@ class Fn:
         self.debug = {}      # source-level name -> place text (from `debug NAME => PLACE;`)
 
 
+PROMOTED = {}   # "f::promoted[N]" -> (lo const text, hi const text, int type, inclusive) for constant integer ranges
+
+
+def parse_promoted(text):
+    for m in re.finditer(r"^const (\S+::promoted\[\d+\]): [^\n]* = \{\n(.*?)^\}", text, re.M | re.S):
+        body = m.group(2)
+        r = re.search(r"RangeInclusive::<(\w+)>::new\((const [^,]+), (const [^)]+)\)", body)
+        if r and r.group(1) in INT_W:
+            PROMOTED[m.group(1)] = (r.group(2), r.group(3), r.group(1), True)
+            continue
+        r = re.search(r"(?:core|std)::ops::Range::<(\w+)> \{ start: (const [^,]+), end: (const [^}]+) \}", body)
+        if r and r.group(1) in INT_W:
+            PROMOTED[m.group(1)] = (r.group(2), r.group(3).strip(), r.group(1), False)
+
+
 def parse_mir(text):
+    parse_promoted(text)
     fns = []
     cur = None
     blk = None
@@ -218,6 +236,8 @@ class Enc:
         self.n = 0
         self.havoced = []    # (name, type, origin) for counterexample display
         self.alias = {}      # reference-typed local -> the place it was copied from
+        self.ptr = {}        # local holding `&_N` -> "_N"
+        self.incl = {}       # local holding a Range / RangeInclusive of integers -> (lo, hi, type, inclusive)
         # assumption A2: a place whose source-level name is `level` is an indentation / nesting depth
         self.depth_places = {self.norm(p) for n, p in fn.debug.items() if n in DEPTH_NAMES}
 
@@ -251,7 +271,9 @@ class Enc:
         place = place.strip()
         for _ in range(4):
             m = re.match(r"^\(\*(_\d+)\)$", place)
-            if m and m.group(1) in getattr(self, "alias", {}):
+            if m and m.group(1) in getattr(self, "ptr", {}):
+                place = self.ptr[m.group(1)]
+            elif m and m.group(1) in getattr(self, "alias", {}):
                 place = f"(*{self.alias[m.group(1)]})"
             else:
                 break
@@ -426,10 +448,31 @@ class Enc:
         base = re.search(r"_\d+", lhs).group(0)
         if re.match(r"^_\d+$", lhs):
             self.alias.pop(lhs, None)
+            self.ptr.pop(lhs, None)
+            self.incl.pop(lhs, None)
+            bm = re.match(r"^&(?:mut )?(_\d+)$", rhs.strip())
+            if bm:
+                self.ptr[lhs] = bm.group(1)
             m = re.match(r"^(?:no_retag )?(?:copy|move) (\(.*\))$", rhs.strip())
             if m and self.fn.types.get(lhs, "").startswith("&"):
                 self.alias[lhs] = m.group(1)
         lt = self.place_type(lhs)
+        pm = re.match(r"^const (\S+::promoted\[\d+\])$", rhs.strip())
+        # a use inside a generic function is spelled `f::<V>::promoted[0]`, its definition `f::promoted[0]`
+        pkey = re.sub(r"::<[^<>]*(?:<[^<>]*>[^<>]*)*>", "", pm.group(1)) if pm else None
+        if pm and pkey in PROMOTED:
+            lo, hi, t, inc = PROMOTED[pkey]
+            a, b = self.const(lo), self.const(hi)
+            if a and b:
+                self.incl[lhs] = (a[0], b[0], t, inc)
+            return
+        am = re.match(r"^(?:core|std)::ops::Range::<(\w+)> \{ start: (.*), end: (.*) \}$", rhs.strip())
+        if am and am.group(1) in INT_W:
+            a, _ = self.operand(am.group(2))
+            b, _ = self.operand(am.group(3))
+            if a is not None and b is not None:
+                self.incl[lhs] = (a, b, am.group(1), False)
+            return
         term, typ, extra = self.rvalue(rhs, lt)
         self.kill(base) if lhs == base else self.env.pop(lhs, None)
         if extra and len(extra) == 3:
@@ -462,7 +505,24 @@ class Enc:
         ops = [self.operand(a) for a in argv] if len(argv) <= 3 else []
         short = re.sub(r"<[^<>]*>", "", callee)
         short = re.sub(r"<[^<>]*>", "", short)
-        name = short.split("::")[-1]
+        name = ([x for x in short.split("::") if x] or [""])[-1]
+        # integer ranges: `(a..=b).contains(&x)` / `(a..b).contains(&x)`
+        if name == "new" and "RangeInclusive" in callee and len(ops) == 2 and all(o[0] is not None and o[1] in INT_W for o in ops):
+            self.incl[lhs] = (ops[0][0], ops[1][0], ops[0][1], True)
+            return
+        if name == "contains" and "Range" in callee and len(argv) == 2:
+            r0 = re.sub(r"^(copy|move) ", "", argv[0].strip())
+            x0 = re.sub(r"^(copy|move) ", "", argv[1].strip())
+            rng = self.incl.get(self.ptr.get(r0, r0))
+            xplace = self.ptr.get(x0)
+            if rng and xplace:
+                x, tx = self.read(xplace)
+                lo, hi, t, inc = rng
+                if x is not None and tx == t:
+                    le = "bvsle" if is_signed(t) else "bvule"
+                    lt = "bvslt" if is_signed(t) else "bvult"
+                    self.env[lhs] = (f"(and ({le} {lo} {x}) ({le if inc else lt} {x} {hi}))", "bool")
+                    return
         if lt == "usize" and (name in ("len", "count", "capacity") or callee.endswith("::len")):
             v = self.fresh("usize", f"{name}()")
             self.asserts.append(f"(bvule {v} #x7fffffffffffffff)")
@@ -808,7 +868,7 @@ def replay_candidate(site, jaq_bin, scratch, stats):
             prog = t.replace("{v}", sv)
             stats["replays"] += 1
             try:
-                p = subprocess.run([jaq_bin, "-nc", prog], capture_output=True, text=True, timeout=20)
+                p = subprocess.run([jaq_bin, "-nc", prog], capture_output=True, text=True, errors="replace", timeout=20)
             except subprocess.TimeoutExpired:
                 continue
             if p.returncode == 101 or "panicked at" in p.stderr:
@@ -823,7 +883,7 @@ def replay_candidate(site, jaq_bin, scratch, stats):
 def site_key(crate, s):
     fn = re.sub(r"\{closure@[^}]*\}", "{closure}", s["fn"])
     fn = re.sub(r"<impl at [^>]*>", "<impl>", fn)
-    ops = [re.sub(r"_\d+", "_", o) for o in s["operands"]]
+    ops = [re.sub(r"^(copy|move) ", "", re.sub(r"_\d+", "_", o)) for o in s["operands"]]
     return f"{crate}|{fn}|{s['msg']}|{','.join(ops)}"
 
 
@@ -920,7 +980,9 @@ def run_job(job, overlay, scratch):
         return r
     r["assumptions"].append("translator validated on this run against rustc's MIR of lib/e2_selftest/known.rs (21 functions with known verdicts)")
     try:
-        baseline = set(json.load(open(BASELINE))["undecided"]) if os.path.isfile(BASELINE) else set()
+        bl = json.load(open(BASELINE))["undecided"] if os.path.isfile(BASELINE) else {}
+        # key -> number of undecided sites with that key on the unchanged tree
+        baseline = dict(bl) if isinstance(bl, dict) else {k: 10 ** 6 for k in bl}
     except Exception as e:
         r["reason"] = f"baseline unreadable: {e}"
         return r
@@ -944,8 +1006,14 @@ def run_job(job, overlay, scratch):
     proved = [s for s in allsites if s["verdict"] == "proved"]
     cands = [s for s in allsites if s["verdict"] == "candidate"]
     errs = [s for s in allsites if s["verdict"] == "error"]
-    known = [s for s in cands if s["key"] in baseline]
-    new = [s for s in cands if s["key"] not in baseline]
+    # a candidate is "known" while its key's count does not exceed the baseline count; if a key shows up
+    # more often than on the unchanged tree, ALL sites of that key are treated as new (one of them is)
+    counts = {}
+    for s in cands:
+        counts[s["key"]] = counts.get(s["key"], 0) + 1
+    grown = {k for k, n in counts.items() if n > baseline.get(k, 0)}
+    known = [s for s in cands if s["key"] not in grown]
+    new = [s for s in cands if s["key"] in grown]
     r["checks_passed"] = len(proved)
     r["undecided_baseline"] = len(known)
     r["queries"] = stats["queries"]
@@ -1007,6 +1075,9 @@ if __name__ == "__main__":
                         und.append(k)
         print(stats)
         if "--write-baseline" in sys.argv:
-            json.dump({"undecided": sorted(set(und))}, open(BASELINE, "w"), indent=1)
+            cnt = {}
+            for k in und:
+                cnt[k] = cnt.get(k, 0) + 1
+            json.dump({"undecided": dict(sorted(cnt.items()))}, open(BASELINE, "w"), indent=1)
     finally:
         shutil.rmtree(scratch, ignore_errors=True)
